@@ -603,6 +603,7 @@ class Analysis(object):
             self._use_after_free(fname, fn, info, out)
             self._recv_count_uses(fname, fn, info, out)
             self._accumulator_indexes(fname, fn, info, out)
+        self._stale_global_pointers(out)
         # one finding per site and clause (a pointer with several possible origins reaches the same sink once)
         uniq = []
         seen = set()
@@ -612,6 +613,47 @@ class Analysis(object):
                 seen.add(k)
                 uniq.append(f)
         return uniq
+
+    # ---- K9: a global pointer that outlives the object it points to ------------
+    def _stale_global_pointers(self, out):
+        """K9: a heap object that is both remembered in a writable global pointer and handed to free() must have that
+        global updated by the function that frees it (the queue head is, by STAILQ_REMOVE*; a cached `last element`
+        pointer that the freeing function does not touch keeps pointing into freed memory for the next datagram)"""
+        mod = self.mod
+        holders = {}      # heap object -> globals that hold a pointer to it
+        for key, srcs in self.origin.items():
+            if not (isinstance(key, tuple) and key[0] == '*' and isinstance(key[1], str) and key[1].startswith('@')):
+                continue
+            g = mod.globals.get(key[1][1:])
+            if g is None or g.const:
+                continue
+            for (obj, off) in srcs:
+                if ':heap@' in str(obj):
+                    holders.setdefault(obj, set()).add(key[1])
+        if not holders:
+            return
+        for fname, fn in mod.functions.items():
+            stored = set()
+            frees = []
+            for ins in fn.instrs():
+                if ins.op == 'store':
+                    for (obj, off) in self.origin_of(fname, ins.args[1]):
+                        stored.add(obj)
+                elif ins.op == 'call' and callee_name(ins) == 'free' and ins.args:
+                    frees.append(ins)
+            for ins in frees:
+                for (obj, off) in self.origin_of(fname, ins.args[0]):
+                    for g in sorted(holders.get(obj, ())):
+                        if g in stored:
+                            continue
+                        # is the global's pointer ever followed?
+                        used = any(i.op == 'load' and any(o == g for (o, _) in self.origin_of(f2, i.args[0]))
+                                   for f2, fn2 in mod.functions.items() for i in fn2.instrs())
+                        if not used:
+                            continue
+                        out.append({'kind': 'stale-global-pointer', 'fn': fname, 'loc': self.loc(ins), 'labels': [],
+                                    'text': 'frees an object (%s) that the global %s may still point to, and does not update %s: the '
+                                            'next datagram follows a pointer into freed memory' % (obj, g, g)})
 
     # ---- K8: offsets that accumulate from one loop iteration (datagram) to the next ----
     def gep_affine(self, bty, idx):
